@@ -207,6 +207,11 @@ REPLAYS["C18"] = checks_fmt.replay_doc
 from harness import checks_plan   # noqa: E402
 CHECKS["C16"] = checks_plan.check_c16
 REPLAYS["C16"] = replay_dynamic
+from harness import checks_gen   # noqa: E402
+CHECKS["C15"] = checks_gen.check_c15
+REPLAYS["C15"] = checks_gen.replay_c15
+CHECKS["C14"] = checks_gen.check_c14
+REPLAYS["C14"] = checks_gen.replay_c14
 
 
 def main():
